@@ -12,8 +12,11 @@ import traceback
 from pathlib import Path
 
 VERIF = Path(__file__).resolve().parents[1]
-EVIDENCE = VERIF / 'evidence'
-REPLAYS = VERIF / 'replays'
+# VERIF_OUT redirects evidence and replay files (used when a check is pointed at a scratch tree through PYTHONPATH, so
+# that the evidence of /repo is not overwritten); registered commands never set it
+_OUT = Path(os.environ['VERIF_OUT']) if os.environ.get('VERIF_OUT') else VERIF
+EVIDENCE = _OUT / 'evidence'
+REPLAYS = _OUT / 'replays'
 KNOWN = VERIF / 'known_findings.json'
 
 EXIT_OK, EXIT_VIOLATION, EXIT_INCONCLUSIVE = 0, 1, 2
